@@ -48,6 +48,8 @@ func runBulkStream(ctx context.Context, ctrl ledgercontroller.Controller, docs [
 	}
 	err := bulking.NewBulker(ctrl, bulking.WithParallelism(10)).Run(ctx, send, receive, bulking.BulkingOptions{
 		ContinueOnFailure: o.Continue, Atomic: o.Atomic, Parallel: o.Parallel,
+		// as the controller does: the handler tells the bulker whether the stream could be read to its end
+		InputError: h.StreamError,
 	})
 	if err != nil {
 		return nil, err
